@@ -389,6 +389,39 @@ func checkRecovery(r *Result, rr *recordedRun, ps *PlanSpec, cut []writeRec, rc 
 			}
 		}
 	}
+	// C03 across a restart, the other direction: a block whose failed sequences stay within the tolerance must not end
+	// Failed for "exceeding" it (e.g. because durably Failed sequences are counted once more when the block is re-entered)
+	if res.Final != nil {
+		for bi, b := range ps.Blocks {
+			if b.Tol < 0 || bi >= len(res.Final.Blocks) {
+				continue
+			}
+			fb := res.Final.Blocks[bi]
+			if fb.Status != "failed" {
+				continue
+			}
+			nf, unfinished := 0, 0
+			for _, q := range fb.Seqs {
+				switch q.Status {
+				case "failed":
+					nf++
+				case "completed":
+				default:
+					unfinished++
+				}
+			}
+			groupFailed := false
+			for _, g := range []*ChecksImg{fb.Bypass, fb.Pre, fb.Cont, fb.Post, fb.Deferred, res.Final.Cont} {
+				if g != nil && g.Status == "failed" {
+					groupFailed = true
+				}
+			}
+			if nf <= b.Tol && !groupFailed {
+				fail("C03.recovery_failures_counted_once", map[string]any{"failedSeqs": nf, "tol": b.Tol, "unfinished": unfinished},
+					fmt.Sprintf("after a restart a block ended Failed with %d failed sequences, tolerance %d, and no failed check group", nf, b.Tol))
+			}
+		}
+	}
 	// C06 across a restart: plan-level pre-checks (and the initial cont run) are run again by the
 	// recovering process and must pass before any sequence action is invoked
 	var firstSeqEnter int64
@@ -536,7 +569,7 @@ func crashCampaign(prop string, r *Result, quick, thorough int, double bool) {
 	per := (n + workers - 1) / workers
 	parallel(workers, workers, func(w int) {
 		rng := newRand(uint64(9000 + w))
-		for i := w*per - 3; i < (w+1)*per && i < n && !expired(); i++ {
+		for i := w*per - 4; i < (w+1)*per && i < n && !expired(); i++ {
 			if i < 0 && w != 0 {
 				continue
 			}
@@ -552,6 +585,14 @@ func crashCampaign(prop string, r *Result, quick, thorough int, double bool) {
 				g.ContMode, g.PGroup = "fail0", 0.5 // continuous checks whose (initial) run fails
 			}
 			ps := g.plan()
+			if i == -4 {
+				// durably Failed sequences must be counted once when the block is re-entered: tolerance 1, one failing sequence first,
+				// two more that must still run after any crash (seeded change C03-D)
+				ps = &PlanSpec{Blocks: []BlockSpec{{Conc: 1, Tol: 1, Seqs: []SeqSpec{
+					{Actions: []ActSpec{{Tag: "c03d.fail", Script: []Outcome{{Resp: "nil", Err: "permanent"}}}}},
+					{Actions: []ActSpec{{Tag: "c03d.b"}}}, {Actions: []ActSpec{{Tag: "c03d.c"}}}}}}}
+				r.count("corpus")
+			}
 			if i == -3 {
 				// recovery must pre-count a Failed sequence that lies behind an in-flight (reset) one: Concurrency 2, tolerance 0,
 				// a slow first sequence, a failing second one, two more that must then never start (seeded change C03-A)
@@ -651,7 +692,9 @@ func crashCampaign(prop string, r *Result, quick, thorough int, double bool) {
 func init() {
 	campaigns["C09"] = func(r *Result) {
 		r.Rule = "random plans (1-2 blocks, 1-3 sequences, 1-2 actions, optional check groups, retries 0-2, failing actions, action-only outcome scripts) executed once on a recording vault; for EVERY prefix of the durable write sequence a fresh store is built (Create + prefix) and a new Workstream recovers it; second cuts inside recovery runs on a subset; monitors: no plugin call for a sequence action with a durable result, no re-run of a durably terminal sequence/block/plan, only NotStarted or in-flight actions are invoked; non-trivial = cut strictly inside the run; distinct by (spec, cut[, cut2])"
+		phase(0.8)
 		crashCampaign("C09", r, 40, 2000, true)
+		phase(1)
 		// function-level tie of the repair itself: fixAction / fixSeq / fixChecks on arbitrary object states vs Model/Fix, Model/FixFull
 		fixDiffCampaign(r, 3000, 150000)
 		r.Validated = r.Evaluations
